@@ -95,3 +95,46 @@ Proof.
   intros Hn Hab. unfold chunks. rewrite combine_length, <- Hab, Nat.min_id.
   apply chunks_fuel_combine; [exact Hn|exact Hab|apply Nat.le_refl].
 Qed.
+
+(* chunking a concatenation of equally long rows gives the rows back *)
+Lemma chunks_fuel_any A n f1 f2 (l : list A) :
+  0 < n -> length l <= f1 -> length l <= f2 -> chunks_fuel f1 n l = chunks_fuel f2 n l.
+Proof.
+  intros Hn. revert f2 l; induction f1 as [|k IH]; intros f2 l H1 H2.
+  - destruct l; [destruct f2; reflexivity|cbn [length] in H1; lia].
+  - destruct l as [|x l]; [destruct f2; reflexivity|].
+    destruct f2 as [|k2]; [cbn [length] in H2; lia|]. cbn [chunks_fuel]. f_equal.
+    apply IH; rewrite skipn_length; cbn [length] in *; lia.
+Qed.
+
+Lemma chunks_fuel_more A n fuel (l : list A) :
+  0 < n -> length l <= fuel -> chunks_fuel fuel n l = chunks_fuel (length l) n l.
+Proof. intros Hn H. apply chunks_fuel_any; [exact Hn|exact H|apply Nat.le_refl]. Qed.
+
+Lemma chunks_fuel_S A n k (l : list A) :
+  l <> [] -> chunks_fuel (S k) n l = firstn n l :: chunks_fuel k n (skipn n l).
+Proof. destruct l; [contradiction|reflexivity]. Qed.
+
+Lemma chunks_concat_rows A n (rows : list (list A)) :
+  0 < n -> Forall (fun r => length r = n) rows -> chunks n (concat rows) = rows.
+Proof.
+  intros Hn H. induction H as [|r rows Hr _ IH]; [reflexivity|].
+  unfold chunks in *. cbn [concat]. set (L := r ++ concat rows).
+  assert (HL : length L = n + length (concat rows)) by (unfold L; rewrite app_length; lia).
+  assert (Hne : L <> []) by (intros E; rewrite E in HL; cbn [length] in HL; lia).
+  replace (length L) with (S (length L - 1)) by lia.
+  rewrite (chunks_fuel_S _ _ Hne).
+  assert (Hf : firstn n L = r).
+  { unfold L. rewrite firstn_app, Hr, Nat.sub_diag, firstn_O, app_nil_r. apply firstn_all2. lia. }
+  assert (Hs : skipn n L = concat rows).
+  { unfold L. rewrite skipn_app, Hr, Nat.sub_diag. rewrite (skipn_all2 (n := n)) by lia. reflexivity. }
+  rewrite Hf, Hs. f_equal.
+  rewrite <- IH at 2. apply chunks_fuel_any; [exact Hn|lia|apply Nat.le_refl].
+Qed.
+
+Lemma chunks_exact_concat_rows A n (rows : list (list A)) :
+  0 < n -> Forall (fun r => length r = n) rows -> chunks_exact n (concat rows) = rows.
+Proof.
+  intros Hn H. unfold chunks_exact. rewrite (chunks_concat_rows Hn H).
+  induction H as [|r rows Hr _ IH]; [reflexivity|]. cbn [filter]. rewrite (proj2 (Nat.eqb_eq _ _) Hr), IH. reflexivity.
+Qed.
